@@ -612,6 +612,10 @@ _DATE_ARGS = ("beyond/dates/date.py", ["Date._julian_century", "Date.julian_cent
 _DATE_PRINT = ("beyond/dates/date.py", ["Date.__format__", "Date.strftime", "Date.__str__", "Date.datetime", "Date._datetime", "Timescale.__str__"])
 _DATE_KEY = ("beyond/dates/date.py", ["Date.__repr__", "Date.__str__", "Timescale.__str__", "Date.datetime", "Date._datetime"])
 _MEMOIZE = ("beyond/utils/memoize.py", ["*"])
+_INFOS = ("beyond/orbits/statevector.py", ["Infos.*", "StateVector.infos"])
+_EARTH_ROTATION = [("beyond/frames/iau1980.py", ["*"]), ("beyond/frames/iau2010.py", ["*"])]
+_EOP = ("beyond/dates/eop.py", ["*"])
+_SCALES = ("beyond/dates/date.py", ["Date.change_scale", "Date._convert_to_scale", "Date._convert_dt", "Date.__init__", "Timescale.*", "<module>#*"])
 _FORMS = ("beyond/orbits/forms.py", ["*"])
 _SV_CONVERT = ("beyond/orbits/statevector.py", ["StateVector.frame:setter", "StateVector.form:setter", "StateVector.copy", "StateVector.__new__",
                                                 "StateVector.__array_finalize__", "StateVector.__reduce__", "StateVector.__setstate__"])
@@ -642,11 +646,14 @@ DEPS = {
             (("beyond/propagators/base.py", ["*"]), "the analytical propagators inherit `propagate` / `iter` from it")],
     "C06": [(_DATE_ARITH, "steps and stop conditions are Date sums and comparisons"),
             (("beyond/orbits/man.py", ["*"]), "the maneuvers the integrator applies"),
-            (_SV_CONVERT, "every step is returned as a copy in the requested frame and form")],
+            (_SV_CONVERT, "every step is returned as a copy in the requested frame and form"),
+            (_FORMS, "the integrator starts from `orbit.copy(form='cartesian')`: the initial state of an orbit given in any element form (wave k: a slip in equinoctial -> keplerian moved the start point along the orbit)")],
     "C07": [(_DATE_ARITH, "minutes since epoch are a difference of Dates"),
             (_ORBIT_DISPATCH, "`Orbit.propagate` hands the date or the timedelta to the propagator"),
             (("beyond/propagators/__init__.py", ["*"]), "the propagator registry `Tle.orbit()` resolves Sgp4 through"),
-            (_DATE_PRINT, "the calendar fields handed to the sgp4 library are printed with `Date.__format__`; the TLE epoch likewise")],
+            (_DATE_PRINT, "the calendar fields handed to the sgp4 library are printed with `Date.__format__`; the TLE epoch likewise"),
+            (_SCALES, "`Sgp4.propagate` converts the requested date to UTC; `Sgp4Beta` differences instants"),
+            (_EOP, "UTC <-> TAI goes through the leap-second table of the EOP database (wave k: the table stored most-recent-first made TAI-UTC 1.4 s for every date)")],
     "C08": [(x, "a propagator whose `iter` and `propagate` have to agree") for x in _PROPAGATORS if not x[0].endswith(("keplernum.py", "base.py"))]
            + [(_SV_CONVERT, "every yielded point is a copy of the propagated state")],
     "C09": [(("beyond/dates/date.py", ["Date._mjd", "Date.mjd", "Date.__lt__", "Date.__le__", "Date.__gt__", "Date.__ge__", "Date.__eq__", "Date.__sub__", "Date.__add__"]),
@@ -656,13 +663,18 @@ DEPS = {
            + [(_ORBIT_DISPATCH, "`Orbit.iter` forwards the listeners"),
               (("beyond/orbits/statevector.py", ["StateVector.event", "StateVector.event:setter", "StateVector.copy", "StateVector.frame:setter", "StateVector.form:setter"]),
                "events are attached to copies of the state, the watched quantities are read in the listener's frame and form"),
-              (("beyond/dates/date.py", ["Date.__add__", "Date.__sub__", "Date.__lt__", "Date.__le__", "Date.__gt__", "Date.__ge__", "Date.__eq__"]), "the bisection works on Dates")],
+              (("beyond/dates/date.py", ["Date.__add__", "Date.__sub__", "Date.__lt__", "Date.__le__", "Date.__gt__", "Date.__ge__", "Date.__eq__"]), "the bisection works on Dates"),
+              (_INFOS, "the analytical propagators whose stream is watched take the mean motion from `orbit.infos.n` (wave k: a cached Infos made the crossings those of another orbit)")],
     "C11": [(("beyond/frames/frames.py", ["Frame.*", "get_frame", "<module>#ITRF", "<module>#WGS84"]), "the station frame is attached to ITRF and converts through `Frame.transform`"),
             (_SV_CONVERT, "`copy(frame=station, form='spherical')` is the measurement"),
-            (_FORMS, "the spherical form is the measurement; the frame setter re-expresses the state in its original form")],
+            (_FORMS, "the spherical form is the measurement; the frame setter re-expresses the state in its original form")] + [
+            (x, "the station moves with the Earth's rotation in inertial frames: the anchored orientation providers call these models (wave k: a unit slip in `equinox` for dates before 1997)") for x in _EARTH_ROTATION] + [
+            (_EOP, "UT1 and polar motion of the date, which the Earth-rotation step reads"),
+            (_SCALES, "the rotation models ask for the date in UT1 / TT")],
     "C12": [(("beyond/dates/date.py", ["Date.__init__", "Date._convert_dt", "Date._convert_to_scale", "Date.datetime", "Date._datetime", "Date.change_scale", "Date.d", "Date.s", "Date.__add__"]),
              "the epoch field is built from and written through these"),
             (_DATE_PRINT, "the two-digit year of line 1 is printed with `Date.__format__`"),
+            (_EOP, "the epoch of an orbit dated in another scale is converted to UTC through the leap-second table"),
             (("beyond/orbits/forms.py", ["Form._tle_to_keplerian_mean", "Form._keplerian_mean_to_tle", "Form.__call__", "<module>#TLE", "get_form", "Form.__init__"]),
              "`from_orbit` converts to the TLE form"),
             (("beyond/orbits/orbit.py", ["Orbit.__new__", "Orbit.propagator:setter"]), "`Tle.orbit()` builds the Orbit"),
@@ -679,16 +691,20 @@ DEPS = {
             (("beyond/frames/frames.py", ["Frame.__str__", "Frame.__init__", "get_frame", "<module>#dynamic"]), "`COV_REF_FRAME = {frame}` prints a Frame; the readers look names up with `get_frame`")],
     "C14": [(_FORMS, "the covariance builds its local frames from a cartesian copy of the state"),
             (("beyond/frames/frames.py", ["Frame.transform", "get_frame"]), "the rotation applied to the covariance")],
-    "C15": [(_FORMS, "names and aliases are resolved through `Form.alt` and the forms' parameter lists")],
+    "C15": [(_FORMS, "names and aliases are resolved through `Form.alt` and the forms' parameter lists"),
+            (("beyond/frames/center.py", ["*"]), "`copy(frame=...)` runs the centre chain with the registered reference states as offsets: it must leave them alone"),
+            (("beyond/frames/orient.py", ["Orientation.convert_to", "*._to_parent", "*.__init__"]), "`copy(frame=...)` runs the orientation chain with the registered reference states")],
     "C16": [(_DATE_ARITH, "the elapsed time is a difference of Dates, maneuvers are found by comparing Dates"),
             (_ORBIT_DISPATCH, "`Orbit.propagate` / `Orbit.iter` hand over to the propagator"),
-            (_SV_CONVERT, "the propagated state is a copy of the initial one (it carries the propagator and the frame)")],
+            (_SV_CONVERT, "the propagated state is a copy of the initial one (it carries the propagator and the frame)"),
+            (_INFOS, "`ClohessyWiltshire.from_orbit` takes the semi-major axis of the target from `orbit.infos.kep.a`")],
     "C17": [(("beyond/orbits/statevector.py", ["Infos.*", "StateVector.infos", "StateVector.copy", "StateVector.frame:setter", "StateVector.form:setter"]),
              "`dkep2dv` reads speed, mean motion and flight-path quantities from `orb.infos`")],
     "C18": [(_DATE_ARGS, "the kernels and the analytical series are evaluated at the date in TDB / TT"),
             (_NODE, "the path search between centres"),
             (_SV_CONVERT, "`copy(frame=...)` is how a state changes centre"),
-            (_FORMS, "a frame change goes through the cartesian form and back to the form the state had, with the new centre's µ")],
+            (_FORMS, "a frame change goes through the cartesian form and back to the form the state had, with the new centre's µ"),
+            (_EOP, "the TDB / TT argument of a UTC date goes through TAI-UTC of the EOP database (wave k: `round(mjd)` in the day look-up made it one second late before a leap second)")],
     "C19": [(_FORMS, "the inputs are converted to the form each helper needs"),
             (("beyond/orbits/statevector.py", ["Infos.*", "StateVector.infos", "StateVector.copy", "StateVector.frame:setter", "StateVector.form:setter"]), "period, mean motion and conversions of the inputs"),
             (_CONSTANTS, "radius, J2 and µ of the central body"),
@@ -756,3 +772,213 @@ def deps_rule(chk, done):
         if cur is not None and cur != unit_fp(refm[rel], key):
             why = why + path_to(rel, key)
         same_as_reference(chk, "DEP", rel, key, why, missing_ok=True)
+
+
+# ---- display methods are effect-free (REPR) ---------------------------------------------------------------------------
+# `__repr__` bodies are exempt from FILE / DEP (their text is not behaviour) -- which is only sound if a display method
+# does nothing but build text.  Wave k: `Orbit.__repr__` renamed an entry of `self.form.param_names` (the list owned by
+# the process-wide Form object) to label a hyperbolic anomaly `H`; one `print(orbit)` later `.E` was gone for every state
+# in that form, with every anchored file byte-identical.
+REPR_ACCEPTED = {
+    ("beyond/dates/date.py::Date.__str__", "self._cache['str']"): "memo of the text in the per-instance cache of an immutable Date (table A4)",
+}
+_DISPLAY = ("__repr__", "__str__", "__format__")
+
+
+def _names_defined_in(repo, files):
+    """Attribute / method / class-attribute names defined by the classes of `files` (for relevance of a REPR report)."""
+    out = set()
+    for rel in files:
+        m = repo.modules.get(rel)
+        if m is None:
+            continue
+        for c in m.classes.values():
+            out.update(c.methods)
+            out.update(c.setters)
+            out.update(getattr(c, "attrs", {}) or {})
+            for f in list(c.methods.values()) + list(c.setters.values()):
+                for n in ast.walk(f.node):
+                    if isinstance(n, ast.Attribute) and isinstance(n.ctx, ast.Store) and isinstance(n.value, ast.Name) and n.value.id == "self":
+                        out.add(n.attr)
+    return out
+
+
+_CREATORS = {"list", "dict", "set", "sorted", "tuple", "str", "repr", "format", "copy", "deepcopy", "join", "split", "array", "zeros", "OrderedDict"}
+
+
+def _built_here(root, flow, depth=0):
+    """The object a store goes through was created in this function: a display / comprehension / string operation / copy,
+    directly or through locals.  An attribute or element LOAD, a parameter, `self` are somebody else's object."""
+    if depth > 6:
+        return False
+    if isinstance(root, (ast.List, ast.Dict, ast.Set, ast.ListComp, ast.DictComp, ast.SetComp, ast.Constant, ast.JoinedStr, ast.BinOp, ast.Tuple)):
+        return True
+    if isinstance(root, ast.Call):
+        return call_name(root) in _CREATORS
+    if isinstance(root, ast.Name):
+        defs = flow.defs_of(root)
+        if not defs:
+            return False
+        for d in defs:
+            if d[0] != "assign" or not _built_here(d[1], flow, depth + 1):
+                return False
+        return True
+    return False        # Attribute, Subscript, anything else
+
+
+def display_pure_rule(chk):
+    """REPR: every display method of the package only builds text: no attribute / element store, no mutator call on
+    anything but a local it created.  A failing method is reported to the properties whose anchored files contain it or
+    define one of the names it writes through."""
+    from ..ownership import Fresh, stores_through
+    repo = chk.repo
+    files = set(anchored_files().get(chk.prop, []))
+    for (rel, _pats), _why in DEPS.get(chk.prop, []):
+        files.add(rel)
+    mine = None
+    chk.rule("REPR", "display methods (__repr__, __str__, __format__) of the package have no effect: they are exempt from the pins only as text")
+    n = 0
+    for f in repo.all_funcs():
+        if f.name not in _DISPLAY or f.cls is None:
+            continue
+        n += 1
+        fr = Fresh(f, repo)
+        bad = []
+        for text, root, node in stores_through(f, fr.flow):
+            vals = fr.classify(root)
+            if REPR_ACCEPTED.get((f.ref, text)):
+                continue
+            if _built_here(root, fr.flow):
+                continue            # a local built here (txt += ..., parts.append(...))
+            origin = {a.attr for a in ast.walk(root) if isinstance(a, ast.Attribute)}
+            if isinstance(root, ast.Name):
+                for d in fr.flow.defs_of(root):
+                    if len(d) > 1 and isinstance(d[1], ast.AST):
+                        origin |= {a.attr for a in ast.walk(d[1]) if isinstance(a, ast.Attribute)}
+            bad.append((text, node, origin))
+        for n_ in ast.walk(f.node):
+            if isinstance(n_, (ast.Global, ast.Nonlocal)) or (isinstance(n_, ast.Call) and call_name(n_) in ("setattr", "delattr")):
+                bad.append((unparse(n_), n_, {a.attr for a in ast.walk(n_) if isinstance(a, ast.Attribute)}))
+            if isinstance(n_, ast.Delete):
+                for t in n_.targets:
+                    if isinstance(t, (ast.Attribute, ast.Subscript)):
+                        bad.append((unparse(t), n_, {a.attr for a in ast.walk(t) if isinstance(a, ast.Attribute)}))
+        if not bad:
+            chk.inst("REPR", f"{f.ref}", True, "builds text only", loc(f, f.node), nontrivial=False)
+            continue
+        if mine is None:
+            mine = _names_defined_in(repo, files)
+        for text, node, written in bad:
+            relevant = f.module.rel in files or bool(written & mine)
+            chk.inst("REPR", f"{f.ref}::{text}", not relevant,
+                     ("a display method writes to shared state, but not to anything this property's files define" if not relevant else
+                      f"`{text}` in a display method writes to a longer-lived object: printing a value changes later results"), loc(f, node))
+    chk.floor("REPR", 30)
+
+
+# ---- duck-typing probes (DUCK) ----------------------------------------------------------------------------------------
+# The package decides by `hasattr(x, "name")` / `getattr(x, "name", default)` in a dozen places (a link is moving if its
+# offset has `propagate`; an item of `_data` is copied if it has `copy`; a frame is a station if it has `mask`...).  The
+# text of the probe never changes when its ANSWER does: the answer is the set of classes that define the name.
+# Wave g removed `Propagator.copy` (orbit copies then share their propagator); wave k added `StateVector.propagate`
+# (every frame attached to a bare state vector started to move).
+
+def duck_probes(repo, files=None):
+    """{name: [site refs]} for hasattr / three-argument getattr with a literal name, in `files` (or the whole package)."""
+    out = {}
+    for f in repo.all_funcs():
+        if files is not None and f.module.rel not in files:
+            continue
+        for n in ast.walk(f.node):
+            if isinstance(n, ast.Call) and isinstance(n.func, ast.Name) and n.func.id in ("hasattr", "getattr") and len(n.args) >= 2 \
+                    and isinstance(n.args[1], ast.Constant) and isinstance(n.args[1].value, str):
+                if n.func.id == "getattr" and len(n.args) < 3:
+                    continue
+                out.setdefault(n.args[1].value, []).append(f"{f.ref}:{n.lineno}")
+    return out
+
+
+def duck_definers(repo, names):
+    """{name: sorted [rel::Class]} classes of the package that define `name` (method, property, class attribute, or an
+    instance attribute assigned through `self.name = ...` in one of their methods)."""
+    out = {n: set() for n in names}
+    for m in repo.modules.values():
+        for c in m.classes.values():
+            have = set(c.methods) | set(c.setters) | set(getattr(c, "attrs", {}) or {})
+            for f in list(c.methods.values()) + list(c.setters.values()):
+                for n in ast.walk(f.node):
+                    if isinstance(n, ast.Attribute) and isinstance(n.ctx, ast.Store) and isinstance(n.value, ast.Name) and n.value.id == "self":
+                        have.add(n.attr)
+            for n in names:
+                if n in have:
+                    out[n].add(f"{m.rel}::{c.name}")
+    return {k: sorted(v) for k, v in out.items()}
+
+
+def duck_rule(chk):
+    """DUCK: for every name probed by hasattr / getattr-with-default in the anchored files, the classes of the package that
+    define the name are the reference ones (bvstatic/data/duck.json).  A class the reference tree does not have is new API
+    and is not counted."""
+    import json as _json
+    from pathlib import Path as _Path
+    repo = chk.repo
+    files = set(anchored_files().get(chk.prop, []))
+    probes = duck_probes(repo, files)
+    if not probes:
+        return
+    ref = _json.loads((_Path(__file__).resolve().parent.parent / "data" / "duck.json").read_text())
+    ref_classes = set(ref["classes"])
+    cur = duck_definers(repo, probes)
+    chk.rule("DUCK", "the classes that define each name probed by hasattr / getattr in the anchored files are the reference ones")
+    for name in sorted(probes):
+        if name not in ref["definers"]:
+            # a probe the reference tree does not have: the function containing it is reported by FILE / ANCHOR
+            continue
+        want = set(ref["definers"][name])
+        have = {d for d in cur[name] if d in ref_classes}
+        gone = {d for d in want if d.split("::")[0] in repo.modules and d.split("::")[1] in repo.modules[d.split("::")[0]].classes} - have
+        added = have - want
+        ok = not gone and not added
+        chk.inst("DUCK", f"{name}", ok,
+                 f"defined by {len(want)} classes, as in the reference tree" if ok else
+                 f"`{name}` is probed at {', '.join(probes[name][:3])}: " + "; ".join(
+                     ([f"now also defined by {sorted(added)}"] if added else []) + ([f"no longer defined by {sorted(gone)}"] if gone else []))
+                 + " -- the probe answers differently for instances of these classes", "", nontrivial=True)
+
+
+# ---- a conversion is a read (CONV) --------------------------------------------------------------------------------------
+CONVERSION_CHAIN = [("beyond/frames/frames.py", "Frame.transform"), ("beyond/frames/center.py", "Center.convert_to"),
+                    ("beyond/frames/center.py", "Center._to_parent"), ("beyond/frames/orient.py", "Orientation.convert_to"),
+                    ("beyond/frames/orient.py", "LocalOrbitalOrientation._to_parent"), ("beyond/frames/orient.py", "TopocentricOrientation._to_parent"),
+                    ("beyond/frames/lagrange.py", "LagrangeOrient._to_parent"), ("beyond/frames/local.py", "to_local")]
+
+
+def conversion_is_a_read(chk, rule):
+    """Every function on the path of a frame change (Frame.transform -> Center.convert_to / _to_parent -> Orientation.convert_to
+    -> the local / topocentric / Lagrange orientations) writes only to objects it created: the offsets and reference states
+    registered on the links (`self.offset`, `self.statevector`, what their `propagate` returns for a static reference) are the
+    caller's objects and other frames' anchors.  Waves i and k: `sv.frame = self.parent` instead of `sv.copy(frame=...)` in
+    LocalOrbitalOrientation._to_parent, `res.form = "cartesian"` in Center._to_parent -- a conversion of one state rewrote
+    another."""
+    from ..ownership import Fresh, stores_through
+    repo = chk.repo
+    chk.rule(rule, "a frame conversion is a read: the functions on its path store only into objects they created")
+    for rel, qual in CONVERSION_CHAIN:
+        f = repo.try_func(rel, qual) if "." in qual else repo.modules[rel].functions.get(qual) if rel in repo.modules else None
+        if f is None:
+            raise AnalysisError(f"conversion-chain function {rel}::{qual} not found")
+        fr = Fresh(f, repo)
+        stores = stores_through(f, fr.flow)
+        if not stores:
+            chk.inst(rule, f"{f.ref}", True, "no attribute / element store, no mutator call", loc(f, f.node), nontrivial=False)
+        for text, root, node in stores:
+            vals = fr.classify(root)
+            local_root = root
+            while isinstance(local_root, (ast.Attribute, ast.Subscript)):
+                local_root = local_root.value
+            fresh = vals == {"fresh"} and isinstance(local_root, ast.Name) and local_root.id not in ("self", "cls") \
+                and local_root.id not in [a.arg for a in f.node.args.args]
+            chk.inst(rule, f"{f.ref}::{text}", fresh, "store on an object built in this call" if fresh else
+                     f"`{text}` writes through {sorted(map(str, vals))}: a registered reference state / offset or the caller's object is modified by a conversion",
+                     loc(f, node))
+    chk.floor(rule, 8)
